@@ -38,6 +38,8 @@
 //          act/cg: MapNodeView::active_count() / child_graph_count() after the cycle
 //        "idle" the root graph was not evaluated in that cycle
 //   run                            -> "end ev=<stop events at shutdown>"
+//        for the reference-routed functions `k=_` marks a live key whose child output is NOT valid (empty reference);
+//        HGV_DEBUG_ELEM=1 appends `@lm<last_modified_time><dv|di><m>` of every element (diagnosis only)
 // A history is run when `run`, the next `case` or EOF is read.  Errors -> "err:<class>".
 #include "hgv_common.h"
 
